@@ -139,7 +139,7 @@ def eval_geom(g, surf_side, cell_in):
 
 DEFAULT_FEATURES = frozenset({
     "transforms", "periodic", "boundary", "universes", "complements", "thermal", "data_placement", "shortcuts", "message",
-    "plain_params",
+    "plain_params", "progressions",
 })
 
 
@@ -294,7 +294,7 @@ def generate(rng, ncells=None, features=None):
         "message": ["message: outp=o.out", "  runtpe=r.run"] if "message" in F and rng.random() < 0.2 else None,
         "title": rng.choice(["Generated problem", "test case 42 (verif)", "pin cell - variant", "a title with $ and & and c"]),
         "mode": mode, "cells": cells, "surfaces": surfaces, "materials": materials, "transforms": transforms,
-        "placement": placement, "extra_data": extra,
+        "placement": placement, "extra_data": extra, "progressions": "progressions" in F,
     }
 
 
@@ -305,7 +305,7 @@ def generate(rng, ncells=None, features=None):
 PROGRESSION_SHORTCUTS = True
 
 
-def _compress(rng, vals, shortcuts):
+def _compress(rng, vals, shortcuts, progressions=False):
     """words of a per-cell data vector (None = jump); optionally uses R and J shortcuts"""
     words = []
     i = 0
@@ -323,7 +323,7 @@ def _compress(rng, vals, shortcuts):
         else:
             w = spell(rng, v, False) if isinstance(v, float) else str(v)
             # interpolation and multiplication shortcuts where the values happen to form a progression
-            if PROGRESSION_SHORTCUTS and shortcuts and run == 1 and isinstance(v, (int, float)) and v > 0:
+            if PROGRESSION_SHORTCUTS and progressions and shortcuts and run == 1 and isinstance(v, (int, float)) and v > 0:
                 k = i
                 num = lambda x: isinstance(x, (int, float)) and not isinstance(x, bool)  # noqa: E731
                 while k + 1 < len(vals) and num(vals[k + 1]):
@@ -440,7 +440,7 @@ def cards(gp, rng, redundant=0.15, shortcuts=True):
         d.append({"words": ["imp:" + ",".join(gp["mode"])] + [spell(rng, x, False) for x in vectors[0]], "params": [], "dollar": None})
     elif place["imp"] == "data":
         for p in gp["mode"]:
-            d.append({"words": [f"imp:{p}"] + _compress(rng, [c["imp"][p] for c in cs], shortcuts)[: len(cs)] or [f"imp:{p}"], "params": [], "dollar": None})
+            d.append({"words": [f"imp:{p}"] + _compress(rng, [c["imp"][p] for c in cs], shortcuts, gp.get("progressions", False))[: len(cs)] or [f"imp:{p}"], "params": [], "dollar": None})
             if len(d[-1]["words"]) == 1:
                 d[-1]["words"] += [spell(rng, c["imp"][p], False) for c in cs]
     if place["vol"] == "data" and any(c["vol"] is not None for c in cs):
